@@ -36,7 +36,7 @@ check on the then-unchanged tree.
 from harness import framework
 from harness import tmpl_driver as D
 
-FAMS = ["lex", "text", "control", "while", "try", "tryloop", "apply", "loader", "ws", "errors", "errors2"]
+FAMS = ["lex", "text", "control", "control4", "while", "try", "tryloop", "blockloop", "apply", "loader", "ws", "errors", "errors2"]
 
 
 def fams(names):
@@ -129,11 +129,11 @@ def run(ctx):
     if ctx.quick:
         n = run_family_replay(ctx, FAMS, 1)
     else:
-        n = run_family_replay(ctx, ["lex", "text", "control", "tryloop", "apply", "loader", "ws"], 2)
+        n = run_family_replay(ctx, ["lex", "text", "control", "control4", "tryloop", "blockloop", "apply", "loader", "ws"], 2)
         n += run_family_replay(ctx, ["errors", "errors2", "try", "while"], 2)
     ctx.cov["exhaustive"] = True
     # 3. code -> spec: larger random templates, TLC lexes / parses / evaluates the recorded text
-    run_traces(ctx, ctx.pick(400, 10000), 0.3)
+    run_traces(ctx, ctx.pick(250, 10000), 0.3)
     ctx.cov["rule"] = ("templates: every token sequence of each family (alphabets and bounds in TemplateLang!Family, bound = max + %d) "
                        "x loader settings, %d in total, plus seeded random three-file template sets from the python-side grammar; "
                        "distinct = distinct (settings, file texts); non-trivial = main text of >= 2 characters with a specified result"
